@@ -4,31 +4,37 @@
 //! delivers every message sent exactly once, in FIFO order; `send` never blocks and succeeds
 //! while a receiver exists; `try_recv` returns `Err(Empty)` when nothing is queued.
 //! Threads are NOT modelled (Kani has no concurrency).
+//!
+//! Representation chosen for CBMC: channel state lives in `static mut` tables indexed by a channel id handed out
+//! by `unbounded()`.  Senders and receivers are plain ids (no `Arc`, no heap): CBMC keeps globals with constant
+//! indices constant during symbolic execution, so "what was sent" stays concrete where the harness is concrete,
+//! and dropping a sender has no drop glue to explore.  Messages are stored as their 8 raw bytes; the real code
+//! only ever sends `Entity` (8 bytes, `Copy`), a larger or non-`Copy`-like message type is a loud failure.
 pub mod channel
 {
-    use std::cell::UnsafeCell;
-    use std::sync::Arc;
+    use core::marker::PhantomData;
 
-    /// capacity of the model channel (exceeding it is a loud failure); an inline array, not a `Vec`: sending happens
-    /// inside `Drop` impls that CBMC explores under symbolic guards, and a `Vec::push` there drags its growth path along
+    /// capacity of a model channel and number of channels per harness (exceeding either is a loud failure)
     pub const CAP: usize = 8;
-    struct Chan<T>
-    {
-        items: [Option<T>; CAP],
-        len: usize,
-        head: usize,
-    }
+    pub const CHANNELS: usize = 4;
 
-    struct Shared<T>(UnsafeCell<Chan<T>>);
-    // Single-threaded model: never actually shared across threads inside a harness.
-    unsafe impl<T: Send> Send for Shared<T> {}
-    unsafe impl<T: Send> Sync for Shared<T> {}
+    // Every static starts from a distinctive non-zero bit pattern and is used relative to it.  Measured with Kani
+    // 0.68: a `static mut X: usize = 0` shared its storage with the standard library's zero constants (after
+    // `NEXT = 1` every `Vec::new()` reported capacity 1), so all-zero initial values must be avoided.
+    const B_ITEMS: u64 = 0x5EED_0000_0000_0001;
+    const B_LEN: usize = 0x5EED_0000_0000_0100;
+    const B_HEAD: usize = 0x5EED_0000_0000_0200;
+    const B_NEXT: usize = 0x5EED_0000_0000_0300;
+    static mut ITEMS: [[u64; CAP]; CHANNELS] = [[B_ITEMS; CAP]; CHANNELS];
+    static mut LEN: [usize; CHANNELS] = [B_LEN; CHANNELS];
+    static mut HEAD: [usize; CHANNELS] = [B_HEAD; CHANNELS];
+    static mut NEXT: usize = B_NEXT;
 
-    pub struct Sender<T>(Arc<Shared<T>>);
-    pub struct Receiver<T>(Arc<Shared<T>>);
+    pub struct Sender<T>(usize, PhantomData<fn(T)>);
+    pub struct Receiver<T>(usize, PhantomData<fn() -> T>);
 
-    impl<T> Clone for Sender<T> { fn clone(&self) -> Self { Self(self.0.clone()) } }
-    impl<T> Clone for Receiver<T> { fn clone(&self) -> Self { Self(self.0.clone()) } }
+    impl<T> Clone for Sender<T> { fn clone(&self) -> Self { Self(self.0, PhantomData) } }
+    impl<T> Clone for Receiver<T> { fn clone(&self) -> Self { Self(self.0, PhantomData) } }
 
     #[derive(Debug)]
     pub struct SendError<T>(pub T);
@@ -37,19 +43,31 @@ pub mod channel
 
     pub fn unbounded<T>() -> (Sender<T>, Receiver<T>)
     {
-        let shared = Arc::new(Shared(UnsafeCell::new(Chan{ items: [None, None, None, None, None, None, None, None], len: 0, head: 0 })));
-        (Sender(shared.clone()), Receiver(shared))
+        assert!(core::mem::size_of::<T>() == 8, "channel stub: only 8-byte messages (Entity) are modelled");
+        unsafe
+        {
+            let id = NEXT - B_NEXT;
+            if id >= CHANNELS { panic!("model capacity exceeded: channel stub CHANNELS"); }
+            NEXT = B_NEXT + id + 1;
+            LEN[id] = B_LEN;
+            HEAD[id] = B_HEAD;
+            (Sender(id, PhantomData), Receiver(id, PhantomData))
+        }
     }
 
     impl<T> Sender<T>
     {
         pub fn send(&self, msg: T) -> Result<(), SendError<T>>
         {
-            let chan = unsafe { &mut *self.0.0.get() };
-            if chan.len >= CAP { panic!("model capacity exceeded: channel CAP"); }
-            // the slot is None (invariant): written without drop glue for the old value
-            unsafe { core::ptr::write(&mut chan.items[chan.len], Some(msg)); }
-            chan.len += 1;
+            unsafe
+            {
+                let id = self.0;
+                let len = LEN[id] - B_LEN;
+                if len >= CAP { panic!("model capacity exceeded: channel stub CAP"); }
+                ITEMS[id][len] = core::mem::transmute_copy::<T, u64>(&msg);
+                core::mem::forget(msg);
+                LEN[id] = B_LEN + len + 1;
+            }
             Ok(())
         }
     }
@@ -58,20 +76,19 @@ pub mod channel
     {
         pub fn try_recv(&self) -> Result<T, TryRecvError>
         {
-            let chan = unsafe { &mut *self.0.0.get() };
-            if chan.head >= chan.len { return Err(TryRecvError::Empty); }
-            let item = chan.items[chan.head].take();
-            chan.head += 1;
-            match item { Some(x) => Ok(x), None => Err(TryRecvError::Empty) }
+            unsafe
+            {
+                let id = self.0;
+                let head = HEAD[id] - B_HEAD;
+                if head >= LEN[id] - B_LEN { return Err(TryRecvError::Empty); }
+                let raw = ITEMS[id][head];
+                HEAD[id] = B_HEAD + head + 1;
+                Ok(core::mem::transmute_copy::<u64, T>(&raw))
+            }
         }
 
         /// Verification-only: number of messages waiting.
-        pub fn len(&self) -> usize
-        {
-            let chan = unsafe { &*self.0.0.get() };
-            chan.len - chan.head
-        }
-
+        pub fn len(&self) -> usize { unsafe { (LEN[self.0] - B_LEN) - (HEAD[self.0] - B_HEAD) } }
         pub fn is_empty(&self) -> bool { self.len() == 0 }
     }
 }
